@@ -53,19 +53,46 @@ func hostileOffset(sel int64, data []byte) int {
 	return pool[int(sel%int64(len(pool)))]
 }
 
+// delegatedErr: error kinds 4..7 make the failing handler return an error it obtained from
+// the library itself by delegating to another rjson function on its data (that is how a
+// handler comes to hold one of the library's own error values); nil if that call succeeds.
+func delegatedErr(kind int64, data []byte, buf *rjson.Buffer) error {
+	var err error
+	switch kind % 8 {
+	case 4:
+		_, err = rjson.SkipValue(data, buf)
+	case 5:
+		_, err = rjson.SkipValueFast(data, nil)
+	case 6:
+		if len(data) > 0 && data[0] == '{' {
+			_, err = rjson.HandleObjectValues(data, &nopHandler{}, nil)
+		} else {
+			_, err = rjson.HandleArrayValues(data, &nopHandler{}, nil)
+		}
+	case 7:
+		_, _, err = rjson.ReadValue(data)
+	}
+	return err
+}
+
 // c09Check: Ints = [kind, failAt k, offset selector, error kind, nesting(0/1), strategy bits, buffer config].
 // The handler answers calls before k by the strategy bits, and call k with
 // (hostile offset, fresh error). With nesting=1 the failing handler is the handler of an
 // inner traversal started by the outer handler on the first container member; the outer
 // handler passes the inner error on unchanged.
 func c09Check(in []byte, kind byte, failAt int, offSel, errKind int64, nested bool, bits uint64, buf *rjson.Buffer) (reached, nontrivial bool, err error) {
-	sentinel := mkErr(errKind)
+	sentinel := mkErr(errKind % 4)
 	var usedOff int
 	if !nested {
 		h := &recHandler{limit: len(in) + 2}
 		h.decide = func(k int, key, data []byte) (int, error) {
 			if k == failAt {
 				usedOff = hostileOffset(offSel, data)
+				if errKind%8 >= 4 {
+					if de := delegatedErr(errKind, data, buf); de != nil {
+						sentinel = de // the handler passes on the library's own error value
+					}
+				}
 				return usedOff, sentinel
 			}
 			if k > failAt {
@@ -103,6 +130,11 @@ func c09Check(in []byte, kind byte, failAt int, offSel, errKind int64, nested bo
 			if ik == failAt {
 				failed = true
 				usedOff = hostileOffset(offSel, idata)
+				if errKind%8 >= 4 {
+					if de := delegatedErr(errKind, idata, buf); de != nil {
+						sentinel = de
+					}
+				}
 				return usedOff, sentinel
 			}
 			if ik > failAt {
